@@ -273,9 +273,10 @@ def set_default_doc(param, emit_default_doc=True):
     name, _param = param
     del param
     # if param is None: param = {"doc": "", "typ": "Any"}
-    if _param is None or "doc" not in _param:
+    if _param is None or "doc" not in _param and "default" not in _param:
         return name, _param
     _param = dict(_param)  # a copy: the caller's IR is left as it was given
+    _param["doc"] = _param.get("doc") or ""  # a default is announced even when nothing else is said
     has_defaults = extract_default(_param["doc"], emit_default_doc=True)[1] is not None
 
     if has_defaults and not emit_default_doc:
@@ -287,11 +288,13 @@ def set_default_doc(param, emit_default_doc=True):
         if _param["default"] == NoneStr:
             _param["default"] = None
         if _param["default"] is not None or not name.endswith("kwargs"):
-            _param["doc"] = "{doc} Defaults to {default}".format(
+            _param["doc"] = "{doc}Defaults to {default}".format(
                 doc=(
-                    _param["doc"]
+                    ""
+                    if not _param["doc"]
+                    else "{doc} ".format(doc=_param["doc"])
                     if _param["doc"][-1] in frozenset((".", ","))
-                    else "{doc}.".format(doc=_param["doc"])
+                    else "{doc}. ".format(doc=_param["doc"])
                 ),
                 default=(
                     '""'  # `quote` leaves the empty string bare
